@@ -193,6 +193,8 @@ func (ca *CertificateAuthority) Finalize(ctx context.Context, m styp.Certificate
 	}
 	if manifestChanges {
 		if err := ca.writeManifest(ctx, manifest); err != nil {
+			// Whether the write took effect is unknown: read storage again on the next use.
+			ca.Flush()
 			return err
 		}
 		ca.manifest = manifest
